@@ -440,9 +440,68 @@ def keyed_line(line, conf):
     return line.startswith(conf.encode() + b':')
 
 
+STDIN_RULES = [
+    'match header "X-Archive" /yes/ move "%(A)s" pass\n\tmatch header "Subject" /spam/ reject\n\tmatch all move "%(B)s"',
+    'match header "X-Archive" /yes/ label "arch" pass\n\tmatch all move "%(A)s"',
+    'match header "Subject" /spam/ reject\n\tmatch all move "%(A)s"',
+    'match header "X-Archive" /yes/ add-header "X-Seen" "1" pass\n\tmatch header "Subject" /spam/ reject\n\tmatch all move "%(B)s"',
+    'match header "Subject" /spam/ discard\n\tmatch all label "ham" move "%(A)s"',
+    'match all {\n\t\tmatch header "X-Archive" /yes/ move "%(A)s" pass\n\t\tmatch header "Subject" /spam/ reject\n\t}\n\tmatch all move "%(B)s"',
+]
+
+
+def stdin_stage(ck, rng, stats):
+    """stdin mode: what -d announces for the message (destinations, <label>, <add-header>, <discard>, <reject>) is what the real run does"""
+    for rule in STDIN_RULES:
+        for arch in (False, True):
+            for spam in (False, True):
+                msg = b'From: a@example.org\nTo: b@example.org\n' + (b'X-Archive: yes\n' if arch else b'') + \
+                      b'Subject: ' + (b'spam offer' if spam else b'hello') + b'\n\nSTDIN-MARK\nbody\n'
+                res = []
+                for mode in (['-d'], []):
+                    sb = mdrun.Sandbox()
+                    A = sb.maildir('A'); B = sb.maildir('B')
+                    conf = sb.write_conf(('stdin {\n\t%s\n}\n' % (rule % {'A': '@A@', 'B': '@B@'})).replace('@A@', A).replace('@B@', B).encode())
+                    rc, out, err = sb.run(mode + ['-'], conf=conf, stdin=msg, env={'LC_ALL': 'C'})
+                    files = {'A': [b for b in sb.snapshot(A).values()], 'B': [b for b in sb.snapshot(B).values()]}
+                    res.append((rc, out, err, files, A, B))
+                    sb.cleanup()
+                stats['runs'] += 2; stats['stdin_cases'] = stats.get('stdin_cases', 0) + 1
+                (rcd, outd, errd, filesd, Ad, Bd), (rc, out, err, files, A, B) = res
+                said = [l.split(b' -> ', 1)[1].strip() for l in outd.split(b'\n') if b' -> ' in l]
+                # several destination lines = moves executed one after the other: the message ends where the last one says
+                dests = [s_ for s_ in said if s_.startswith(Ad.encode()) or s_.startswith(Bd.encode())]
+                want_A = bool(dests) and dests[-1].startswith(Ad.encode())
+                want_B = bool(dests) and dests[-1].startswith(Bd.encode())
+                want_reject = b'<reject>' in said
+                want_label = b'<label>' in said
+                want_added = b'<add-header>' in said
+                got_A = [b for b in files['A'] if b'STDIN-MARK' in b]
+                got_B = [b for b in files['B'] if b'STDIN-MARK' in b]
+                why = None
+                if filesd['A'] or filesd['B']:
+                    why = 'the dry run delivered a message'
+                elif (len(got_A) == 1) != want_A or (len(got_B) == 1) != want_B or len(got_A) > 1 or len(got_B) > 1:
+                    why = '-d announces %r but the real run delivered %d message(s) to A and %d to B' % (said, len(got_A), len(got_B))
+                elif want_reject != (rc == 1):
+                    why = '-d announces %r but the real run exits %d' % (said, rc)
+                elif want_label and (got_A + got_B) and not any(b'X-Label:' in b for b in got_A + got_B):
+                    why = '-d announces a label but the delivered message has none'
+                elif want_added and (got_A + got_B) and not any(b'X-Seen: 1' in b for b in got_A + got_B):
+                    why = '-d announces add-header but the delivered message lacks the header'
+                if why:
+                    stats['viol'] += 1
+                    ck.violation('stdin mode, rules %r, message archive=%s spam=%s: %s' % (rule, arch, spam, why),
+                                 {'stage': 'stdin', 'rule': rule, 'archive': arch, 'spam': spam, 'dry_stdout': outd.decode(errors='replace'),
+                                  'real_exit': rc, 'real_stderr': err[-300:].decode(errors='replace')})
+                    if stats['viol'] > 3:
+                        return
+
+
 def run(ck):
     rng = ck.rng
     stats = dict(runs=0, msgs=0, nontrivial=0, viol=0, dis=0, multiline=0, model_entries=0)
+    stdin_stage(ck, rng, stats)
     samples = []
     n = 120 if ck.tier == 'quick' else 3000
     for i in range(n):
@@ -456,12 +515,13 @@ def run(ck):
                 'one word in five RFC 2047 encoded, folded with LF+blank / LF+TAB+blank, optional Date; body of 1-5 lines indented by blanks/tabs, plain / base64 / quoted-printable; '
                 '1-3 rules of 1-3 and-ed conditions (header with 1-3 names, body, date header, a negation that holds) over %d patterns with capture groups, leading blanks, '
                 'alternation, empty matches, icase; actions move / flag / label / label+move / discard / add-header+move / exec+move / move+flag; locales C and C.UTF-8. '
-                'non-trivial = a message for which a rule fires (its -d block is judged and compared); counted per message' % len(PATTERNS),
+                'Plus 24 stdin-mode cases (6 rule sets with pass / reject / discard / label / add-header / nested block x 4 messages): the -d lines against the delivery and exit status of a real run. non-trivial = a message for which a rule fires (its -d block is judged and compared); counted per message' % len(PATTERNS),
         'samples': samples,
         'traces_validated_against_impl': stats['msgs'],
         'disagreements_checked': stats['dis'],
         'matches_spanning_lines_skipped': stats['multiline'],
         'entries_compared_with_model': stats['model_entries'],
+        'stdin_mode_cases': stats.get('stdin_cases', 0),
     })
     ck.assumptions += ['regcomp/regexec, mbtowc and wcwidth of the platform (the C and C.UTF-8 locales)',
                        'display widths of the generated characters: 1 column for ASCII and Latin letters, 2 for CJK ideographs and emoji, 1 per byte in the C locale']
